@@ -75,7 +75,8 @@ def gen(rng, tier):
             s = tiny_inertia_truss(rng)
         else:
             s = scaled_units(rng)
-        cases.append(core.case_from_struct(s, Weight=core.weights(i), Solve=True, Assemble=True, Error=rng.choice(ERRORS)))
+        # every fifth structure is solved from its own .inkfempre text read back (the history pre -> solve x.inkfempre)
+        cases.append(core.case_from_struct(s, Weight=core.weights(i), Solve=True, Assemble=True, Error=rng.choice(ERRORS), ViaPre=(i % 5 == 4)))
     return cases + shipped_examples(tier)
 
 
